@@ -45,6 +45,7 @@ class Engine(ExprMixin, CallMixin, StmtMixin):
         self.ctx_hooks = {}
         self.store_monitors = {}
         self.coerce_hooks = {}
+        self.str_atoms = {}
         self.opaque_defs = {}
         self.arg_hooks = {}
         self.exc_names = {}
@@ -469,6 +470,19 @@ class Engine(ExprMixin, CallMixin, StmtMixin):
             # the goal is literally one of the hypotheses (up to renaming of bound variables)
             ob.result = {"status": "unsat", "time": 0.0, "backend": "syntactic"}
             return ob.result
+        # phase 1: ground hypotheses only (sound: a subset). Quantified context can make z3 give up on goals
+        # that follow from the ground facts of the path alone.
+        from .stmt import StmtMixin
+        qf = [f for f in ob.pc if not StmtMixin._has_quantifier(f)]
+        if len(qf) < len(ob.pc):
+            s0 = z3.Solver()
+            s0.set("rlimit", 2000000)
+            s0.add(*qf)
+            s0.add(z3.Not(ob.goal))
+            if s0.check() == z3.unsat:
+                ob.result = {"status": "unsat", "time": round(time.time() - t0, 4),
+                             "backend": "z3-" + z3.get_version_string() + "(ground hypotheses)"}
+                return ob.result
         for a in self.axioms_for(c, ob):
             s.add(a)
         s.add(*ob.pc)
